@@ -248,9 +248,18 @@ func TestVerifC06Sizes(t *testing.T) {
 		if k%17 == 0 {
 			ns = 130 // commit size crosses the two-byte length boundary
 		}
+		// every slot as large as CommitSig.ValidateBasic allows: the commit reaches the bound
+		maximal := extreme && k%2 == 0
+		if maximal && ns < 130 {
+			ns = 1 + r.Intn(9)
+		}
 		sigs := make([]types.CommitSig, ns)
 		for i := range sigs {
-			switch r.Intn(6) {
+			x := r.Intn(6)
+			if maximal {
+				x = 5
+			}
+			switch x {
 			case 0:
 				sigs[i] = types.NewCommitSigAbsent()
 			case 1:
@@ -271,7 +280,7 @@ func TestVerifC06Sizes(t *testing.T) {
 			commit.Height, commit.Round = math.MaxInt64, math.MaxInt32
 			commit.BlockID = h.LastBlockID
 		}
-		if r.Chance(5) {
+		if r.Chance(5) && !maximal {
 			commit.Round = -commit.Round
 		}
 		ssz := make([]int64, len(sigs))
@@ -292,7 +301,11 @@ func TestVerifC06Sizes(t *testing.T) {
 		if extreme {
 			kind = "extreme"
 		}
-		cs.Add(id, kind, true, vg.App("CSizes", ht, ct, vg.Z(hsz), vg.Z(csz), vg.ZL(ssz), vg.B(hvb), vg.B(cvb)),
+		if maximal {
+			kind = "maximal-commit"
+		}
+		cs.Add(id, kind, true, vg.App("CSizes", ht, ct, vg.Z(hsz), vg.Z(csz), vg.ZL(ssz), vg.B(hvb), vg.B(cvb),
+			vg.Z(types.MaxCommitBytes(len(sigs)))),
 			fmt.Sprintf("Header%+v.ToProto().Size()=%d ValidateBasic ok=%v; %s ToProto().Size()=%d (MaxCommitBytes(%d)=%d) slot sizes %v ValidateBasic ok=%v",
 				h, hsz, hvb, c06CommitDescr(cc), csz, len(sigs), types.MaxCommitBytes(len(sigs)), ssz, cvb))
 	}
